@@ -481,6 +481,10 @@ impl<'a> Gen<'a> {
         let rows = 1 + self.r.b(4);
         let cols = (1 + self.r.b(4)) as usize;
         let sect = self.r.b(3);
+        // sparse tables: some columns hold nothing in any row (spacer columns), cells spanning only such columns included —
+        // those columns get width 0 and a spanning cell over them must vanish with them (added after the seeded change
+        // C05-colspan-over-empty-columns-phantom-width was missed by every stream)
+        let dead: Vec<bool> = if cols >= 2 && self.r.p(10) { (0..cols).map(|_| self.r.p(45)).collect() } else { vec![false; cols] };
         if sect == 1 {
             out.push_str("<thead>");
         }
@@ -503,8 +507,13 @@ impl<'a> Gen<'a> {
                 } else {
                     out.push_str(&format!("<{tag}{ida}>"));
                 }
-                match self.r.b(10) {
-                    0 => {}
+                let all_dead = !weird && (c..(c + span).min(cols)).all(|j| dead[j]);
+                match if all_dead { 0 } else { self.r.b(10) } {
+                    0 => {
+                        if all_dead && self.r.p(25) {
+                            out.push(' ');
+                        }
+                    }
                     1..=6 => self.inline(1, out),
                     7 => {
                         if d > 0 {
